@@ -35,7 +35,7 @@ ASSUMPTIONS = [
     'footprint: every read between start and end of a load lies inside the extents (first TIF marker / PR header .. end of last trailer) of the data '
     'records that contain requested frames, plus at most the 12 byte TIF marker + 4 byte header that immediately follows such a record',
 ]
-PROBES = ['stepped_cross_record_indirect', 'slice_starts_inside_record', 'only_short_last_record', 'subset_without_ch0', 'multi_sample', 'reused_chlist',
+PROBES = ['alternate_data_pass', 'stepped_cross_record_indirect', 'slice_starts_inside_record', 'only_short_last_record', 'subset_without_ch0', 'multi_sample', 'reused_chlist',
           'two_log_passes', 'irregular_records', 'indirect_x', 'direct_x', 'tif', 'burst', 'up_log', 'time_log', 'tables', 'load_after_load_other_pass',
           'last_x_checked']
 
@@ -54,9 +54,10 @@ def gen_ops(rng, model):
     last = None
     reuse = rng.chance(0.3)
     for _ in range(nops):
-        fi = last if (last is not None and rng.chance(0.6)) else rng.randrange(len(model['files']))
+        plist = LL.passes_of(model)
+        fi = last if (last is not None and rng.chance(0.6)) else rng.randrange(len(plist))
         last = fi
-        f = model['files'][fi]
+        f = plist[fi][2]
         n = len(f['frames'])
         kind = rng.wpick([(3, 'full'), (5, 'slice')])
         if kind == 'full':
@@ -77,7 +78,7 @@ def gen_ops(rng, model):
 
 def generate(seed, tier):
     rng = seeds.Rng(seed)
-    model = LL.gen_model(rng, max_frames=rng.pick([8, 30, 120]))
+    model = LL.gen_model(rng, max_frames=rng.pick([8, 30, 120]), allow_alt=True)
     return {'world': 'lis_logical', 'model': model, 'ops': gen_ops(rng, model)}
 
 
@@ -115,9 +116,13 @@ def execute(scenario):
     # probes on the model
     if layout['tif'] != 'none':
         res.probe('tif')
-    if len(model['files']) > 1:
+    plist = LL.passes_of(model)
+    pmods = [p[2] for p in plist]
+    if len(plist) > 1:
         res.probe('two_log_passes')
-    for fm in model['files']:
+    if any(f_.get('alt') for f_ in model['files']):
+        res.probe('alternate_data_pass')
+    for fm in pmods:
         d = fm['dfsr']
         res.probe('indirect_x' if d['indirect'] else 'direct_x')
         if d['updown'] == 1:
@@ -130,7 +135,7 @@ def execute(scenario):
             res.probe('burst')
         if len(set(fm['per_record'][:-1])) > 1:
             res.probe('irregular_records')
-        if fm['tables']:
+        if fm.get('tables'):
             res.probe('tables')
     res.op('index')
     try:
@@ -157,10 +162,10 @@ def execute(scenario):
         res.violation('index-entries', f'index entry {k}: {got_entries[k] if k < len(got_entries) else None}, file has {want_entries[k] if k < len(want_entries) else None} '
                       f'({len(got_entries)} entries vs {len(want_entries)} records)', tif=layout['tif'])
     lps = [lp.logPass for lp in idx.genLogPasses()]
-    if len(lps) != len(model['files']):
-        res.violation('log-pass-count', f'{len(lps)} log passes found, {len(model["files"])} written')
+    if len(lps) != len(pmods):
+        res.violation('log-pass-count', f'{len(lps)} log passes found, {len(pmods)} written', alternate=any(f_.get('alt') for f_ in model['files']))
         return res
-    for fi, (lp, fm) in enumerate(zip(lps, model['files'])):
+    for fi, (lp, fm) in enumerate(zip(lps, pmods)):
         n = len(fm['frames'])
         if lp.totalFrames != n:
             res.violation('frame-count', f'log pass {fi}: totalFrames {lp.totalFrames}, {n} frames written in records of {fm["per_record"][:10]}',
@@ -188,7 +193,7 @@ def execute(scenario):
         if fi >= len(lps):
             continue
         res.op('load')
-        lp, fm = lps[fi], model['files'][fi]
+        lp, fm = lps[fi], pmods[fi]
         d = fm['dfsr']
         n = len(fm['frames'])
         if sl is None:
@@ -269,18 +274,18 @@ def execute(scenario):
                                   f'(spacing {d["spacing"]}, updown {d["updown"]}, records of {fm["per_record"][:10]})', offset_in_record=min(off, 2), **facts)
                     break
         # footprint
-        base = layout['files'][fi]['first_data_record']
+        rec_index = layout['passes'][fi]['records']
         allowed = []
         for ri in recs_needed:
-            rl = recs[base + ri]
+            rl = recs[rec_index[ri]]
             allowed.append((rl['pos'], rl['end'] + (16 if layout['tif'] != 'none' else 4)))
         bad = contained(f.reads_between(t0, t1), allowed)
         if bad:
-            res.violation('footprint', f'op {k} {op}: read {bad[:3]} outside the data records {[(recs[base + ri]["pos"], recs[base + ri]["end"]) for ri in recs_needed][:6]} '
+            res.violation('footprint', f'op {k} {op}: read {bad[:3]} outside the data records {[(recs[rec_index[ri]]["pos"], recs[rec_index[ri]]["end"]) for ri in recs_needed][:6]} '
                           f'that hold the requested frames', **facts)
     res.events.append(('io', len(f.log), seeds.digest(f.log)))
     dshape = [(len(fm['dfsr']['channels']), fm['dfsr']['indirect'], fm['dfsr']['updown'], min(len(fm['per_record']), 3),
-               any(c['samples'] * c['bursts'] > 1 for c in fm['dfsr']['channels'])) for fm in model['files']]
+               any(c['samples'] * c['bursts'] > 1 for c in fm['dfsr']['channels'])) for fm in pmods]
     res.shape = seeds.digest([op_shapes, dshape, layout['tif'], model['phys']['chunk_seed'] is not None, model['pre'], model['post']])
     return res
 
@@ -305,17 +310,25 @@ def candidates(scenario):
         m = copy.deepcopy(model)
         m['post'] = False
         yield dict(scenario, model=m)
+    for fidx, f_ in enumerate(model['files']):
+        if f_.get('alt'):
+            m = copy.deepcopy(model)
+            old_list = LL.passes_of(model)
+            del m['files'][fidx]['alt']
+            keep = [k for k, (a, w, _) in enumerate(old_list) if not (a == fidx and w == 'alt')]
+            remap = {k: j for j, k in enumerate(keep)}
+            yield dict(scenario, model=m, ops=[[op[0], remap[op[1]]] + op[2:] for op in ops if op[1] in remap])
     if len(model['files']) > 1:
         for dly in range(len(model['files']) - 1, -1, -1):
             m = copy.deepcopy(model)
+            old_list = LL.passes_of(model)
             del m['files'][dly]
-            new_ops = []
-            for op in ops:
-                if op[1] == dly:
-                    continue
-                new_ops.append([op[0], op[1] - 1 if op[1] > dly else op[1]] + op[2:])
-            yield dict(scenario, model=m, ops=new_ops)
+            keep = [k for k, (a, w, _) in enumerate(old_list) if a != dly]
+            remap = {k: j for j, k in enumerate(keep)}
+            yield dict(scenario, model=m, ops=[[op[0], remap[op[1]]] + op[2:] for op in ops if op[1] in remap])
+    main_pass = {a: k for k, (a, w, _) in enumerate(LL.passes_of(model)) if w == 'main'}
     for fi, fm in enumerate(model['files']):
+        pk = main_pass[fi]
         if fm['tables']:
             m = copy.deepcopy(model)
             m['files'][fi]['tables'] = []
@@ -347,7 +360,7 @@ def candidates(scenario):
                     del fr[dch]
                 new_ops = []
                 for op in ops:
-                    if op[1] == fi and op[3] is not None:
+                    if op[1] == pk and op[3] is not None:
                         ch = [c - 1 if c > dch else c for c in op[3] if c != dch]
                         op = op[:3] + [ch or [0], op[4]]
                     new_ops.append(op)
